@@ -437,7 +437,7 @@ func vary(prop string, g *kernel.Rng, cfg *Config, evs []Ev) {
 		names[k] = n
 		return n
 	}
-	observer := (prop == "C12" || prop == "C06" || prop == "C05") && g.Chance(1, 2)
+	observer := (prop == "C12" || prop == "C06" || prop == "C05" || prop == "C16") && g.Chance(1, 2)
 	var walk func(es []Ev)
 	walk = func(es []Ev) {
 		for i := range es {
